@@ -403,7 +403,7 @@ def target_to_bits(target):
     raw_bytes = target.to_bytes(32, "big")
     # get rid of leading 0's
     raw_bytes = raw_bytes.lstrip(b"\x00")
-    if raw_bytes[0] > 0x7F:
+    if len(raw_bytes) > 0 and raw_bytes[0] > 0x7F:
         # if the first bit is 1, we have to start with 00
         exponent = len(raw_bytes) + 1
         coefficient = b"\x00" + raw_bytes[:2]
@@ -413,6 +413,8 @@ def target_to_bits(target):
         exponent = len(raw_bytes)
         # coefficient is the first 3 digits of the base-256 number
         coefficient = raw_bytes[:3]
+    # targets below 3 bytes still need a 3-byte coefficient
+    coefficient += b"\x00" * (3 - len(coefficient))
     # we've truncated the number after the first 3 digits of base-256
     new_bits = coefficient[::-1] + bytes([exponent])
     return new_bits
